@@ -342,12 +342,19 @@ package constraint
 //@   modifies c.exclusive
 //@   ensures c.exclusive == exclusive
 
+//@ interface ArrayValidator.ValidateTheArray(self, n)
+//@   maypanic
+//@   ensures panics <==> !arrOK(self, n)
+//@   ensures panics ==> errWF(pv)
+
 //@ func (MinItems).ValidateTheArray(numberOfChildren)
 //@   props C02 C04
+//@   implements ArrayValidator.ValidateTheArray
 //@   maypanic
 //@   ensures panics <==> numberOfChildren < c.value
 //@ func (MaxItems).ValidateTheArray(numberOfChildren)
 //@   props C02 C04
+//@   implements ArrayValidator.ValidateTheArray
 //@   maypanic
 //@   ensures panics <==> numberOfChildren > c.value
 
